@@ -47,6 +47,8 @@ def run(ck, ctx):
     ck.rule("R13.13", _c12w.WRITER_TEXT + " (shared with C12 R12.8; compaction writes its output through the same writer)")
     from . import c06 as _c06t
     ck.rule("R13.14", _c06t.DELTA_TEXT + " (shared with C06 R06.10: compaction keeps one delta per key, so a partial delta erases the rest of the value)")
+    from . import c12 as _c12i
+    ck.rule("R13.16", _c12i.IDS_TEXT + " (shared with C12 R12.11: compaction is one of the two writers of the counter)")
     ck.rule("R13.15", "a manifest save that reports success has installed *its* manifest: put(temp) Ok-dominates rename(temp, manifest) and both "
                       "errors are propagated - a rename failure (e.g. NotFound because a concurrent writer consumed the shared temp object) is "
                       "never turned into success, or compaction deletes inputs that the installed manifest still lists (shared with C12 R12.3)")
@@ -71,6 +73,7 @@ def run(ck, ctx):
         c12._r123(_Only(ck, {"R12.3": "R13.15"}), prog, fns12, cfg)
         from . import c06 as _c06
         _c06.r0610(ck, prog, cfg, "R13.14")
+        c12.ids_rule(ck, prog, cfg, "R13.16")
 
 
 def _wall_clock_locals(fn):
